@@ -24,17 +24,17 @@ RE_BADQ = re.compile(r'^<<"BADQ", (\d+), (-?\d+), (\d+), "(.*)", \{(.*)\}>>$')
 INF = 2000000000
 
 CURATED_STATES = {
-    "all": [("store", i) for i in range(1, 15)],
+    "all": [("store", i) for i in range(1, 16)],
     "ties": [("store", i) for i in (13, 1, 2, 3, 4, 5, 9, 14)],
     "empty": [("store", 1), ("remove", 1)],
-    "leftovers": [("store", i) for i in (7, 11, 2, 1, 3, 4, 5, 6, 8, 12, 10, 13, 14, 9)] + [("remove", 4), ("reopen", 0), ("store", 7)],
+    "leftovers": [("store", i) for i in (7, 11, 2, 1, 3, 4, 5, 6, 8, 15, 12, 10, 13, 14, 9)] + [("remove", 4), ("reopen", 0), ("store", 7)],
 }
 
 
 def gen_filters(wd, u):
     S_ = lambda b: u["strs"].index(b.encode().hex())
     now0 = int(time.time())
-    vocab = dict(ids=[1, 4, 12], authors=[1, 2, 3], kinds=[1, 7, 0], names=[S_("t"), S_("u"), S_("w")],
+    vocab = dict(ids=[1, 4, 12], authors=[1, 2, 3], kinds=[1, 7, 0, 30000], names=[S_("t"), S_("u"), S_("w"), S_("d")],
                  vals=[S_("x"), S_("y"), S_("zz")], now0=now0)
     vp = os.path.join(wd, "vocab.json")
     json.dump(vocab, open(vp, "w"))
@@ -148,8 +148,13 @@ def run(prop, tier, seed, replay=None):
     filters, nfilters_tlc, now0 = gen_filters(wd, u)
     total_grammar = len(filters)
     if tier == "quick":
-        # all scrape-gate filters are cheap and time-sensitive: keep a sample of every family
-        filters = rnd.sample(filters, 7000)
+        # stratified by family: the small families entirely, a seeded sample of the big ones
+        byfam = {}
+        for f in filters:
+            byfam.setdefault(f.get("fam", "?"), []).append(f)
+        filters = []
+        for fam, fs in sorted(byfam.items()):
+            filters += fs if len(fs) <= 1500 else rnd.sample(fs, 1500)
     fpath = os.path.join(wd, "filters.json")
     json.dump(filters, open(fpath, "w"))
 
